@@ -1,6 +1,7 @@
 (* C06 — the printed JSON parses back to exactly the decoded document. *)
 From Coq Require Import List NArith Bool Arith.
-From PV Require Import Base.Bytes Base.Lit Model.Pretty Proofs.PrettyFacts.
+From Coq Require Import ZArith.
+From PV Require Import Base.Bytes Base.Lit Base.Json Model.Pretty Model.JsonLoads Proofs.PrettyFacts Proofs.JsonLoadsFacts.
 Import ListNotations.
 Open Scope N_scope.
 
@@ -24,6 +25,37 @@ Theorem C06_all_framing : forall docs tds, Forall2 complete docs tds ->
   tokens (all_output docs) = Some ([TP 91] ++ sep_tokens tds ++ [TP 93]).
 Proof. exact all_output_tokens. Qed.
 Print Assumptions C06_all_framing.
+
+(* ---- the round trip itself, with json.loads modelled in Coq (Model/JsonLoads.v: CPython's scanner, OrderedDict pairs) ----
+   wf_json j: no float in j, strings are sequences of Unicode scalar values, keys of one object pairwise distinct, integer
+   literals within int()'s digit limit (4300), nesting at most depth_limit (200).  The documents the decoder produces meet this
+   (their strings come from decoded text, keys are distinct by construction - C01_distinct_keys -, depth <= 6).  *)
+
+(* json.loads reads json.dumps back, compact or indented *)
+Theorem C06_loads_dumps : forall j, wf_json j -> loads (render j) = LOk j /\ loads (dumps4 0 j) = LOk j.
+Proof. intros j H. split; [apply loads_render|apply loads_dumps4]; exact H. Qed.
+Print Assumptions C06_loads_dumps.
+
+(* what peltool prints for one PEL (-f, the files of -j) and for --list: prettyPrint(json.dumps(out, indent=4), width) *)
+Theorem C06_printed_roundtrip : forall w j, wf_json j -> loads (pretty_print w (dumps4 0 j)) = LOk j.
+Proof. exact loads_printed. Qed.
+Print Assumptions C06_printed_roundtrip.
+
+(* what --all-pels prints: "[", the printed documents separated by ",", "]" parses back to the list of the documents *)
+Theorem C06_all_roundtrip : forall w (ls : list (list (text * json))), wf_json (JArr (map JObj ls)) ->
+  loads (all_output (map (fun l => pretty_print w (dumps4 0 (JObj l))) ls)) = LOk (JArr (map JObj ls)).
+Proof. exact all_output_loads. Qed.
+Print Assumptions C06_all_roundtrip.
+
+(* json.loads only sees the token sequence, so any text with the tokens of j parses to j *)
+Theorem C06_loads_tokens : forall s j, tokens s = Some (toks j) -> wf_json j -> loads s = LOk j.
+Proof. exact loads_of_tokens. Qed.
+Print Assumptions C06_loads_tokens.
+
+Example C06_roundtrip_example :
+  let j := JObj [(L "k""ey\: ", JArr [JNum (-5); JStr [34; 58; 233; 128512]; JObj []]); (L "", JNull)] in
+  loads (pretty_print 34 (dumps4 0 j)) = LOk j.
+Proof. vm_compute. reflexivity. Qed.
 
 (* non-vacuity: a line whose string value contains a quote followed by a colon is left alone, a key line is aligned *)
 Example C06_example :
